@@ -2621,6 +2621,11 @@ func (d *decoderSimpleBytes) swallow() {
 	d.d.nextValueBytes()
 }
 
+func (d *decoderSimpleBytes) readArrayStart() int {
+	halt.onerror(d.err)
+	return d.d.ReadArrayStart()
+}
+
 func (d *decoderSimpleBytes) nextValueBytes() []byte {
 	return d.d.nextValueBytes()
 }
@@ -6392,6 +6397,11 @@ func (d *decoderSimpleIO) Release() {}
 
 func (d *decoderSimpleIO) swallow() {
 	d.d.nextValueBytes()
+}
+
+func (d *decoderSimpleIO) readArrayStart() int {
+	halt.onerror(d.err)
+	return d.d.ReadArrayStart()
 }
 
 func (d *decoderSimpleIO) nextValueBytes() []byte {
